@@ -7,6 +7,8 @@ every output value decodes the coordinates it was evaluated at.
 import itertools
 import math
 
+import warnings
+
 import numpy as np
 
 from mc.util import call, raised
@@ -71,6 +73,13 @@ def cases(tier, seed):
             for extra in (0, 1):
                 yield dict(kind="checker_names", names=names, dims=dims, extra=extra)
     yield dict(kind="noregion")
+    # the default region of grid() / scatter() is the one of the CURRENT parameters / LATEST fit, whatever was called before
+    # (seed C05-8: a cached region_ property)
+    for est in ("CheckerBoard:set_params", "CheckerBoard:attribute", "Trend", "KNeighbors", "Chain", "Vector", "Spline"):
+        for first in ("none", "grid", "scatter", "both"):
+            for second in ("grid", "scatter"):
+                for ra, rb in ((0, 1), (1, 0), (0, 2)):
+                    yield dict(kind="region_hist", est=est, first=first, second=second, ra=ra, rb=rb)
     pts = [(0.0, 0.0), (4.0, 3.0), (4.0, 0.0), (0.0, 2.5), (-1.5, 2.0), (2.0, -8.0)]
     for p1 in pts:
         for p2 in pts:
@@ -384,6 +393,52 @@ def run(case, rec):
             pts = vd.scatter_points((0.0, 4.0, 0.0, 3.0), 4, random_state=1)
             rec.check(np.array_equal(sc_[dims[1]].values, pts[0]) and np.array_equal(sc_[dims[0]].values, pts[1]), "CheckerBoard.scatter: %s/%s columns do not hold easting/northing" % (dims[1], dims[0]))
         rec.cls("checker_names")
+        return
+    if kind == "region_hist":
+        HR = [(0.0, 4.0, 0.0, 3.0), (100.0, 130.0, 20.0, 30.0), (-7.5, -2.5, 1.0e3, 1.5e3)]
+        ra, rb = HR[case["ra"]], HR[case["rb"]]
+
+        def data_on(reg):
+            e_, n_ = vd.grid_coordinates(reg, shape=(3, 4))
+            return (e_.ravel(), n_.ravel()), 1.0 + 0.5 * (e_.ravel() - reg[0]) / (reg[1] - reg[0]) - 0.25 * (n_.ravel() - reg[2]) / (reg[3] - reg[2])
+
+        name = case["est"]
+        with warnings.catch_warnings():
+            warnings.simplefilter("ignore")
+            if name.startswith("CheckerBoard"):
+                g = vd.synthetic.CheckerBoard(region=ra)
+            else:
+                g = {"Trend": lambda: vd.Trend(1), "KNeighbors": lambda: vd.KNeighbors(1), "Spline": lambda: vd.Spline(),
+                     "Chain": lambda: vd.Chain([("t", vd.Trend(1)), ("k", vd.KNeighbors(1))]),
+                     "Vector": lambda: vd.Vector([vd.Trend(1), vd.Trend(0)])}[name]()
+                c_, d_ = data_on(ra)
+                g.fit(c_, (d_, -d_) if name == "Vector" else d_)
+            if case["first"] in ("grid", "both"):
+                call(rec, g.grid, shape=(2, 3))
+            if case["first"] in ("scatter", "both"):
+                call(rec, g.scatter, size=3, random_state=0)
+            if name == "CheckerBoard:set_params":
+                g.set_params(region=rb)
+            elif name == "CheckerBoard:attribute":
+                g.region = rb
+            else:
+                c_, d_ = data_on(rb)
+                g.fit(c_, (d_, -d_) if name == "Vector" else d_)
+            if case["second"] == "grid":
+                ds = call(rec, g.grid, shape=(2, 3))
+                if raised(ds):
+                    return rec.check(False, "grid raised %r" % (ds,))
+                we, wn = vd.grid_coordinates(rb, shape=(2, 3))
+                rec.check(np.array_equal(ds.easting.values, we[0]) and np.array_equal(ds.northing.values, wn[:, 0]),
+                          "grid() after the region changed %r -> %r (%s) covers easting %r northing %r" % (ra, rb, name, ds.easting.values.tolist(), ds.northing.values.tolist()))
+            else:
+                tb = call(rec, g.scatter, size=3, random_state=0)
+                if raised(tb):
+                    return rec.check(False, "scatter raised %r" % (tb,))
+                we, wn = vd.scatter_points(rb, 3, random_state=0)
+                rec.check(np.array_equal(tb.easting.values, we) and np.array_equal(tb.northing.values, wn),
+                          "scatter() after the region changed %r -> %r (%s) has easting %r northing %r" % (ra, rb, name, tb.easting.values.tolist(), tb.northing.values.tolist()))
+        rec.cls("region_hist:" + name.split(":")[0])
         return
     if kind == "noregion":
         rec.trivial = True
